@@ -218,20 +218,98 @@ func checkC05(c *Ctx) {
 				}
 			}
 		}
-		// the timer's callback adds TimeoutEvent{View: <view read when the timer was armed>}
+		// the timer's callback adds TimeoutEvent{View: <view read when the timer was armed>}: the event is built in a
+		// function literal of the package from a captured value (not read when the timer fires), and the captured value
+		// is ViewStates.View() as read by the arming code (directly, or handed down as a parameter)
 		armed := false
-		fs := NewFlow(p, startT)
-		for _, cl := range Closures(startT) {
-			for _, e := range p.constructSites(namedType(p, "", "TimeoutEvent")) {
-				if e.Fn == cl && e.Alloc != nil {
-					fc := NewFlow(p, cl)
-					if strings.HasPrefix(fc.K.Key(complitField(e.Alloc, "View")), "fv:view") || strings.Contains(fc.K.Key(complitField(e.Alloc, "View")), "view") {
+		isCurrentView := func(v ssa.Value, depth int) bool { return false }
+		isCurrentView = func(v ssa.Value, depth int) bool {
+			if depth > 3 {
+				return false
+			}
+			if call, ok := v.(*ssa.Call); ok && call.Call.StaticCallee() != nil && call.Call.StaticCallee().String() == "(*"+modPath+"/protocol.ViewStates).View" {
+				return true
+			}
+			if u, ok := v.(*ssa.UnOp); ok {
+				if al, ok := u.X.(*ssa.Alloc); ok {
+					all, n := true, 0
+					storedInto(al, func(x ssa.Value) bool {
+						n++
+						if !isCurrentView(x, depth+1) {
+							all = false
+						}
+						return false
+					})
+					return all && n > 0
+				}
+			}
+			if prm, ok := v.(*ssa.Parameter); ok {
+				fn := prm.Parent()
+				idx := -1
+				for i, q := range fn.Params {
+					if q == prm {
+						idx = i
+					}
+				}
+				callers := callIndexOf(p).callers[fn]
+				if idx < 0 || len(callers) == 0 || callIndexOf(p).asValue[fn] {
+					return false
+				}
+				for _, r := range callers {
+					ci, ok := r.Instr.(ssa.CallInstruction)
+					if !ok || idx >= len(ci.Common().Args) || !isCurrentView(ci.Common().Args[idx], depth+1) {
+						return false
+					}
+				}
+				return true
+			}
+			return false
+		}
+		for _, e := range p.constructSites(namedType(p, "", "TimeoutEvent")) {
+			cl := e.Fn
+			if cl.Parent() == nil || e.Alloc == nil || funcPkgPath(cl) != modPath+"/protocol/synchronizer" || strings.HasSuffix(p.FuncPos(cl), "_test.go") {
+				continue
+			}
+			vv := complitField(e.Alloc, "View")
+			var fv *ssa.FreeVar
+			switch x := vv.(type) {
+			case *ssa.FreeVar:
+				fv = x
+			case *ssa.UnOp:
+				fv, _ = x.X.(*ssa.FreeVar)
+			}
+			if fv == nil {
+				continue
+			}
+			eachInstr(cl.Parent(), func(in ssa.Instruction) {
+				mc, ok := in.(*ssa.MakeClosure)
+				if !ok || mc.Fn != ssa.Value(cl) {
+					return
+				}
+				for i, q := range cl.FreeVars {
+					if q != fv || i >= len(mc.Bindings) {
+						continue
+					}
+					b := mc.Bindings[i]
+					if al, isAlloc := b.(*ssa.Alloc); isAlloc {
+						// captured by reference: what the arming code stored into the variable
+						all, n := true, 0
+						storedInto(al, func(x ssa.Value) bool {
+							n++
+							if !isCurrentView(x, 0) {
+								all = false
+							}
+							return false
+						})
+						if all && n > 0 {
+							armed = true
+						}
+					} else if isCurrentView(b, 0) {
 						armed = true
 					}
 				}
-			}
+			})
 		}
-		_ = fs
 		c.Check(ok && armed, "C05.1", "timer event: handled by OnLocalTimeout exactly for the current view", p.FuncPos(startT),
 			"the timer adds TimeoutEvent{View: view at arming time}; the handler calls OnLocalTimeout under state.View() == event.View", "handler gate: "+boolStr(ok)+", event carries the arming view: "+boolStr(armed))
 	}
